@@ -198,7 +198,7 @@ def pmap(fn_mod: str, fn_name: str, items: Sequence[Any], procs: int = 16,
 def pipeline(out: Outcome, mod_name: str, behaviours: List[dict], trace_module: str, *,
              site_of: Callable[[dict, int], str],
              tags_of: Optional[Callable[[dict, int], List[str]]] = None,
-             trace_constants: str = "", chunk: int = 1500) -> None:
+             trace_constants: str = "", chunk: int = 1500, lock_mode: str = "exact") -> None:
     """(G) replay behaviours through <mod_name>.replay, (V) validate the recorded traces with TLC,
     cross-check the two verdicts and turn TLC's rejections into divergences."""
     import hashlib
@@ -225,7 +225,10 @@ def pipeline(out: Outcome, mod_name: str, behaviours: List[dict], trace_module: 
     out.transitions += tv.generated
     out.traces_validated += tv.accepted
     rejected = {(r["tid"], r["event"]): r for r in tv.rejected}
-    if set(rejected) != set(lock):
+    # lock_mode "exact": the python lock-step comparison implements the same clauses, verdicts
+    # must coincide.  "superset": lock-step only flags "differs from the canonical result", which
+    # TLC may still accept (admissible non-canonical result); TLC's rejections must be among them.
+    if (set(rejected) != set(lock)) if lock_mode == "exact" else (not set(rejected) <= set(lock)):
         only_t = sorted(set(rejected) - set(lock))[:3]
         only_l = sorted(set(lock) - set(rejected))[:3]
         out.machinery_errors.append(
